@@ -82,6 +82,8 @@ def run_world(aiu, w, prefix=(), expect=None):
 
         def caller_body(i, c):
             obs.setdefault('caller_tid', {})[i] = sched.current_id()
+            if c.get('offset'):
+                sched.sleep(c['offset'])
 
             async def main():
                 own = asyncio.get_running_loop()
@@ -248,6 +250,13 @@ def worlds(tier):
         add({'target': 'idle', 'race_lit': True, 'callers': [
             {'api': 'ensure', 'aw': 'coro', 'd': d, 'out': 'ret'},
             {'api': 'ensure', 'aw': 'coro', 'd': 0.0, 'out': 'raise'}]}, 1 if q else 2)
+    # chains of borrowed runs: A runs the idle target, B queues behind it, C arrives while B runs
+    for da, db, oc, dc in ((D / 2, D, 0.75 * D, D), (D / 2, D, 0.75 * D, 2 * D), (D, D / 2, 1.25 * D, D),
+                           (D / 2, 2 * D, 0.75 * D, D / 2)):
+        add({'target': 'idle', 'callers': [
+            {'api': 'ensure', 'aw': 'coro', 'd': da, 'out': 'ret'},
+            {'api': 'ensure', 'aw': 'coro', 'd': db, 'out': 'ret'},
+            {'api': 'ensure', 'aw': 'coro', 'd': dc, 'out': 'ret', 'offset': oc}]}, 1)
     # three callers on an idle target
     add({'target': 'idle', 'callers': [{'api': 'ensure', 'aw': 'coro', 'd': d, 'out': 'ret'} for d in (0.0, D, 0.0)]},
         1 if q else 2)
